@@ -298,10 +298,81 @@ def next (x : XBits) (i : HexIn) (r : HexRegs) : HexRegs :=
   ⟨n.u_processor__pc_q, n.u_processor__areg_q, n.u_processor__breg_q, n.u_processor__oreg_q, n.u_memory__memory_q⟩
 end SynthVH
 
-/-- The whole design with synth/processor.v = the whole design with verilog/processor.v
-    (definitional while the two copies translate to the same term). -/
-theorem synth_hex_next_same (x : XBits) (i : HexIn) (r : HexRegs) : SynthVH.next x i r = VH.next x i r := rfl
-theorem synth_hex_out_same (x : XBits) (i : HexIn) (r : HexRegs) : SynthVH.out x i r = VH.out x i r := rfl
+theorem synth_sv_out_eq (x : XBits) (i : ProcIn) (r : ProcRegs) : SynthVP.out x i r = SvP.out i r :=
+  (synth_out_eq x i r).trans (v_out_eq x i r)
+theorem synth_sv_next_eq (x : XBits) (i : ProcIn) (r : ProcRegs) : SynthVP.next x i r = SvP.next i r :=
+  (synth_next_eq x i r).trans (v_next_eq x i r)
+
+/-! The same chain for the design with synth/processor.v (kept separate from the verilog copy so
+    that a harmless textual difference between the copies does not break it). -/
+
+theorem synth_v_flat_out (x : XBits) (i : HexIn) (r : HexRegs) :
+    let w := SynthVH.wires x i r
+    (⟨w.req_f_valid, w.req_f_addr, w.req_d_valid, w.req_d_we, w.req_d_addr, w.req_d_data, w.o_syscall_valid, w.o_syscall⟩ : ProcOut)
+      = SynthVP.out x ⟨i.i_rst, i.i_clk, w.res_f_data, w.res_d_data⟩ (pregs r) := rfl
+
+theorem synth_fetch_same (x : XBits) (i : HexIn) (r : HexRegs) :
+    (SynthVH.wires x i r).res_f_data = (SvH.wires i r).res_f_data := rfl
+
+theorem synth_rd_v (x : XBits) (i : HexIn) (r : HexRegs) : (SynthVH.wires x i r).res_d_data = r.mem (SynthVH.wires x i r).req_d_addr := rfl
+
+theorem synth_daddr_same (x : XBits) (i : HexIn) (r : HexRegs) :
+    (SynthVH.wires x i r).req_d_addr = (SvH.wires i r).req_d_addr := by
+  have hv := congrArg ProcOut.o_d_addr (synth_v_flat_out x i r)
+  have hs := congrArg ProcOut.o_d_addr (sv_flat_out i r)
+  simp only at hv hs
+  rw [hv, hs, synth_sv_out_eq, synth_fetch_same]
+  exact sv_addr_indep _ _ _ _ _ _
+
+theorem synth_rd_same (x : XBits) (i : HexIn) (r : HexRegs) :
+    (SynthVH.wires x i r).res_d_data = (SvH.wires i r).res_d_data := by
+  rw [synth_rd_v, rd_sv, synth_daddr_same]
+
+theorem synth_flat_out_same (x : XBits) (i : HexIn) (r : HexRegs) :
+    let wv := SynthVH.wires x i r
+    let ws := SvH.wires i r
+    (⟨wv.req_f_valid, wv.req_f_addr, wv.req_d_valid, wv.req_d_we, wv.req_d_addr, wv.req_d_data, wv.o_syscall_valid, wv.o_syscall⟩ : ProcOut)
+    = ⟨ws.req_f_valid, ws.req_f_addr, ws.req_d_valid, ws.req_d_we, ws.req_d_addr, ws.req_d_data, ws.o_syscall_valid, ws.o_syscall⟩ := by
+  intro wv ws
+  have hv := synth_v_flat_out x i r
+  have hs := sv_flat_out i r
+  simp only at hv hs
+  rw [hv, hs, synth_sv_out_eq, synth_fetch_same, synth_rd_same]
+
+theorem synth_v_next_regs (x : XBits) (i : HexIn) (r : HexRegs) :
+    pregs (SynthVH.next x i r) = SynthVP.next x ⟨i.i_rst, i.i_clk, (SynthVH.wires x i r).res_f_data, (SynthVH.wires x i r).res_d_data⟩ (pregs r) := rfl
+theorem synth_next_regs_same (x : XBits) (i : HexIn) (r : HexRegs) : pregs (SynthVH.next x i r) = pregs (SvH.next i r) := by
+  rw [synth_v_next_regs, sv_next_regs, synth_sv_next_eq, synth_fetch_same, synth_rd_same]
+
+/-- memory.sv is the same file in both designs -/
+theorem synth_v_next_mem (x : XBits) (i : HexIn) (r : HexRegs) :
+    (SynthVH.next x i r).mem =
+      (Sv.Memory.ff ⟨⟩ ⟨i.i_rst, i.i_clk, (SynthVH.wires x i r).req_f_valid, (SynthVH.wires x i r).req_f_addr, (SynthVH.wires x i r).req_d_valid,
+        (SynthVH.wires x i r).req_d_we, (SynthVH.wires x i r).req_d_addr, (SynthVH.wires x i r).req_d_data⟩ ⟨r.mem⟩).memory_q := rfl
+theorem synth_next_mem_same (x : XBits) (i : HexIn) (r : HexRegs) : (SynthVH.next x i r).mem = (SvH.next i r).mem := by
+  have h := synth_flat_out_same x i r
+  simp only [ProcOut.mk.injEq] at h
+  obtain ⟨h1, h2, h3, h4, h5, h6, _, _⟩ := h
+  rw [synth_v_next_mem, sv_next_mem, h1, h2, h3, h4, h5, h6]
+
+theorem synth_hex_next_same (x : XBits) (i : HexIn) (r : HexRegs) : SynthVH.next x i r = SvH.next i r := by
+  have h1 := synth_next_regs_same x i r
+  have h2 := synth_next_mem_same x i r
+  cases hv : SynthVH.next x i r
+  cases hs : SvH.next i r
+  rw [hv, hs] at h1 h2
+  simp only [pregs, ProcRegs.mk.injEq] at h1 h2
+  obtain ⟨a, b, c, d⟩ := h1
+  simp only [a, b, c, d, h2]
+
+theorem synth_hex_out_same (x : XBits) (i : HexIn) (r : HexRegs) : SynthVH.out x i r = SvH.out i r := by
+  have h := synth_flat_out_same x i r
+  simp only [ProcOut.mk.injEq] at h
+  obtain ⟨_, _, _, _, _, _, h7, h8⟩ := h
+  unfold SynthVH.out SvH.out
+  rw [h7, h8]
+
+
 
 /-- `n` events of a whole design. -/
 def iterHex (next : XBits → HexIn → HexRegs → HexRegs) : List (XBits × HexIn) → HexRegs → HexRegs
